@@ -53,8 +53,10 @@ type Contract struct {
 	Panics   []Clause // exceptional postconditions: condition (over old state) under which a panic is permitted
 	Modifies []Clause
 	ModAll   bool
+	StringsExact bool // model the contents of concatenated strings (quantified axioms)
 	Handler  bool // deferred recover handler: recover() yields an arbitrary value
 	RecoverBy string // callee key of the deferred recover handler: runtime panics after its Defer are converted to errors
+	Preserves []string // heap variables whose pre-existing objects stay unchanged even under modifies *
 	Pure     bool // declared to modify no pre-existing heap location (checked)
 	NoReturn bool
 	Loops    map[int]*LoopSpec
@@ -66,6 +68,7 @@ type Contract struct {
 	Line     int
 	Reason   string // for trusted: why
 	ParamNames []string // for functype/iface contracts: names of the parameters
+	Measure  []Clause // function-level termination measure (lexicographic), for recursion
 	Like     string // functype contract whose clauses are included (self = this function)
 }
 
@@ -95,6 +98,7 @@ type Specs struct {
 	Preds     map[string]*Pred     // pkgpath::name and bare name fallback
 	SpecFns   map[string]*SpecFn
 	Axioms    []Axiom
+	GhostFields map[string]string // "pkgpath.Type.field" -> type
 	InitTable []Axiom // per package: checked at the end of the package initialiser only (mutable registries)
 	GlobalInv []Axiom // per package: holds after init, globals it mentions are never written again
 	Tables    []*TableSpec
@@ -109,7 +113,7 @@ type TableSpec struct {
 }
 
 func newSpecs() *Specs {
-	return &Specs{Contracts: map[string]*Contract{}, Preds: map[string]*Pred{}, SpecFns: map[string]*SpecFn{}}
+	return &Specs{Contracts: map[string]*Contract{}, Preds: map[string]*Pred{}, SpecFns: map[string]*SpecFn{}, GhostFields: map[string]string{}}
 }
 
 var reImplies = regexp.MustCompile(`==>`)
@@ -443,10 +447,14 @@ func (sp *Specs) loadSpecFile(path, pkgPath string) error {
 			cur.ParamNames = strings.Fields(strings.ReplaceAll(rest, ",", " "))
 		case "like":
 			cur.Like = rest
+		case "stringsexact":
+			cur.StringsExact = true
 		case "handler":
 			cur.Handler = true
 		case "recoverby":
 			cur.RecoverBy = rest
+		case "preserves":
+			cur.Preserves = append(cur.Preserves, strings.Fields(rest)...)
 		case "pure":
 			cur.Pure = true
 		case "noreturn":
@@ -555,6 +563,24 @@ func (sp *Specs) loadSpecFile(path, pkgPath string) error {
 			if _, ok := sp.SpecFns[f.Name]; !ok {
 				sp.SpecFns[f.Name] = f
 			}
+		case "ghostfield":
+			// ghostfield Type.field type
+			fs := strings.Fields(rest)
+			if len(fs) != 2 || !strings.Contains(fs[0], ".") {
+				return fail(fmt.Errorf("ghostfield Type.field type"))
+			}
+			sp.GhostFields[pkgPath+"."+fs[0]] = fs[1]
+		case "measure":
+			if cur == nil {
+				return fail(fmt.Errorf("measure outside func"))
+			}
+			for _, p := range splitTop(rest, ',') {
+				c, err := parseClause(p, lineNo)
+				if err != nil {
+					return fail(err)
+				}
+				cur.Measure = append(cur.Measure, c)
+			}
 		case "inittable":
 			c, err := parseClause(rest, lineNo)
 			if err != nil {
@@ -604,6 +630,7 @@ func (sp *Specs) resolveLikes() error {
 		if len(c.Props) == 0 {
 			c.Props = ft.Props
 		}
+		c.Preserves = append(c.Preserves, ft.Preserves...)
 	}
 	return nil
 }
